@@ -734,8 +734,8 @@ def run_call(cd, registry, case):
             names = {c: n for n, c in registry.items()}
             # the dict keeps insertion order and entries are never removed: the new ones are the last ones
             fresh = list(itertools.islice(reversed(real_cache.items()), len(real_cache) - n0))[::-1]
-            out["cache_new"] = [[names.get(k[0], getattr(k[0], "__name__", "?")), "ov" if k[1] else "", bool(k[2]),
-                                 mapper_to_wire(v)] for k, v in fresh]
+            out["cache_new"] = json.dumps([[names.get(k[0], getattr(k[0], "__name__", "?")), "ov" if k[1] else "",
+                                            bool(k[2]), mapper_to_wire(v)] for k, v in fresh], separators=(",", ":"))
             doc_f = serialize(x, mapper=explicit, camel_case_convert=camel)
             if doc_f != doc:
                 out["ser_paths_differ"] = [doc, doc_f]
@@ -860,9 +860,10 @@ def tags(case, impl, model):
     t.append("keep_undefined=" + str(call_ku(case)))
     mo = (model or {}).get("out") if model else None
     if mo and "cacheNew" in mo and "cache_new" in impl:
-        same = [e[:3] for e in mo["cacheNew"]] == [e[:3] for e in impl["cache_new"]]
+        filed = json.loads(impl["cache_new"])
+        same = [e[:3] for e in mo["cacheNew"]] == [e[:3] for e in filed]
         t.append("cache-keys-filed=" + ("as-modelled" if same else "differ"))
-        t.append(f"cache-entries-filed={min(len(impl['cache_new']), 4)}")
+        t.append(f"cache-entries-filed={min(len(filed), 4)}")
     if any("bases" in lv for lv in case["cls"]["levels"]):
         t.append("multiple-inheritance")
     if any(lv.get("des") is not None for c in all_cds(case["cls"]) for lv in c["levels"]):
@@ -956,9 +957,9 @@ def correspondence(cd, impl, model):
             return f"model has no {key}"
         if ("ok" in r) != ("ok" in m):
             return (f"{key}: real {json.dumps(r)[:300]} model {json.dumps(m)[:300]}")
-        if "ok" in r and sorted(r.get("extras", [])) != sorted(model_extras(m["ok"], cd)):
-            return (f"{key}: undefined keys kept as attributes: real {sorted(r.get('extras', []))} model "
-                    f"{sorted(model_extras(m['ok'], cd))}")
+        if "ok" in r and sorted(set(r.get("extras", []))) != sorted(set(model_extras(m["ok"], cd))):
+            return (f"{key}: undefined keys kept as attributes: real {sorted(set(r.get('extras', [])))} model "
+                    f"{sorted(set(model_extras(m['ok'], cd)))}")
         if "ok" in r and canon_inst(r["ok"], cd) != canon_inst(m["ok"], cd):
             return (f"{key} instance differs: real {json.dumps(canon_inst(r['ok'], cd))[:300]} model "
                     f"{json.dumps(canon_inst(m['ok'], cd))[:300]}")
@@ -967,7 +968,7 @@ def correspondence(cd, impl, model):
     # get filed is the code's business (a different caching strategy is not a violation): only tagged.
     if "cache_new" in impl and "cacheNew" in model:
         mine = {(e[0], e[1], e[2]): e[3] for e in model["cacheNew"]}
-        for e in impl["cache_new"]:
+        for e in json.loads(impl["cache_new"]):
             k = (e[0], e[1], e[2])
             if k in mine and mine[k] != e[3]:
                 return (f"aggregated_mapper_by_class[{k}] filed by this call is not the aggregate of that class / "
@@ -1097,6 +1098,12 @@ def run_map(case):
         for k, v in mp.items():
             allowed = set(spec["v"]["fields"]) | ({spec["nest_field"]} if spec["nest"] else set())
             extras += [f"m[{k}].{a}" for a in v.__dict__ if a not in INTERNAL and a not in allowed]
+            if spec["nest"]:
+                # keep_undefined=True reaches the classes nested in the value class as well
+                x = getattr(v, spec["nest_field"], None)
+                for w in ([] if x is None else [x] if spec["nest"] == "one" else list(x)):
+                    extras += [f"m[{k}].{spec['nest_field']}.{a}" for a in w.__dict__
+                               if a not in INTERNAL and a not in spec["w"]["fields"]]
     out["deser"] = {"ok": True, "equal": bool(y == o), "extras": extras}
     return out
 
